@@ -77,6 +77,7 @@ pub fn replay_doc(rc: &RunCtx, doc: &Value) -> Result<(), String> {
             }
             Ok(())
         }
+        "surface" => crate::c17x::replay_doc(rc, doc),
         other => crate::vprops::replay_doc(rc, other, doc),
     }
 }
